@@ -96,6 +96,7 @@ func c19RegValue(status string) map[string]string {
 }
 
 func c19Run(in c19In) c19Out {
+	vk.Running("optsync", in)
 	var out c19Out
 	dir, _ := os.MkdirTemp("", "c19")
 	defer os.RemoveAll(dir)
